@@ -3,3 +3,4 @@ import PexpectModel.Drv.Launch
 import PexpectModel.Drv.Screen
 import PexpectModel.Drv.Ansi
 import PexpectModel.Drv.Forms
+import PexpectModel.Drv.Transport
